@@ -365,3 +365,56 @@ def fix_roles(shape_index, t, v, rng, tpath=()):
 
 def fix_roles_sub(shape_index, t, v, rng, rpath):
     return fix_roles(shape_index, t, v, rng, tuple(rpath))
+
+
+def field_positions(t, v, base=0):
+    """positions of the metadata fields inside encode(t, v): [(offset, width, kind)] with kind in
+    len / usz / ulen / off / lencopy / disc / bool"""
+    k = t[0]
+    out = []
+    if k == "F":
+        def walk(c, pos):
+            if c[0] == "bool":
+                out.append((pos, 1, "bool"))
+            elif c[0] == "disc":
+                out.append((pos, 1, "disc"))
+            elif c[0] == "struct":
+                for f in c[1]:
+                    walk(f, pos)
+                    pos += fsize(f)
+        walk(t[1], base)
+        return out
+    if k == "L":
+        out.append((base, t[2], "len"))
+        c = t[1]
+        pos = base + t[2]
+        for it in v[1]:
+            out += field_positions(("F", c), ("B", it), pos)
+            pos += fsize(c)
+        return out
+    if k == "R":
+        return out
+    if k == "U":
+        n = len(v[1])
+        esz = 4 + t[2]
+        out.append((base, 4, "usz"))
+        out.append((base + 4, 4, "ulen"))
+        for i in range(n):
+            out.append((base + 8 + i * esz, 4, "off"))
+        out.append((base + 8 + n * esz, 4, "lencopy"))
+        pos = base + 12 + n * esz
+        for _, e in v[1]:
+            out += field_positions(t[1], e, pos)
+            pos += len(encode(t[1], e))
+        return out
+    if k == "S":
+        pos = base
+        for ft, fv in zip(t[1], v[1]):
+            out += field_positions(ft, fv, pos)
+            pos += len(encode(ft, fv))
+        return out
+    if k == "E":
+        out.append((base, t[1], "disc"))
+        vt = dict(t[2])[v[1]]
+        return out + field_positions(vt, v[2], base + t[1])
+    return out
